@@ -64,7 +64,7 @@ class Rec:
     def ev(self, op: str, **kw: Any) -> None:
         base_ev = {'op': op, 'store': 0, 'exc': False, 'slice': 0, 'selfcontained': True, 'eq1': True, 'eq2': True,
                    'wellformed': True, 'sametype': True, 'sametext': True, 'samestruct': True, 'r1': True, 'r2': True,
-                   'samehash': True}
+                   'samehash': True, 'claimsame': True}
         base_ev.update(kw)
         base_ev['obs'] = self.obs()
         self.events.append(base_ev)
@@ -220,6 +220,10 @@ def c11_traces(text: str, default: bool, max_models: int) -> list[dict]:
             continue
         f = fresh()
         m = [x for p, x in tree.walk(f)][idx]
+        if idx % 2:
+            for p2, x in tree.walk(f):
+                if hasattr(x, 'indent_by') and not isinstance(x, base.RawTokenModel):
+                    x.indent_by = '  '          # configuration that a copy must carry along
         r = Rec()
         r.stores.append(f.token_store)
         r.ev('init')
@@ -232,8 +236,10 @@ def c11_traces(text: str, default: bool, max_models: int) -> list[dict]:
         if cstore is None:
             continue
         r.stores.append(cstore)
+        cl0 = [t.claimed for t in m.tokens if isinstance(t, models.BlockComment)]
+        cl1 = [t.claimed for t in c.tokens if isinstance(t, models.BlockComment)]
         r.ev('copy', slice=r.tx(tree.text_of(m)), selfcontained=not tree.wellformed(c, self_contained=True),
-             eq1=bool(c == m), eq2=bool(m == c))
+             eq1=bool(c == m), eq2=bool(m == c), claimsame=cl0 == cl1)
         # edits on the copy, then on the original
         for side, root, store, sidx in (('copy', c, cstore, 2), ('orig', f, f.token_store, 1)):
             span = list(c.tokens) if side == 'copy' else list(m.tokens)
